@@ -4,4 +4,4 @@ Require Import ExtrOcamlBasic.
 Extraction "m.ml" xb_add xb_mul xb_div_eucl
   cmac_impl split_key siv_encrypt siv_decrypt daead_encrypt daead_decrypt
   s2v_rfc5297 siv_encrypt_rfc5297
-  kwp_key_ok kwp_wrap kwp_unwrap wrap_rfc5649.
+  kwp_key_ok kwp_wrap kwp_unwrap kwp_api_wrap kwp_api_unwrap wrap_rfc5649.
